@@ -384,6 +384,13 @@ func streamIntraProxyRouting(
 		}
 	}
 
+	// Without a memberlist section this instance has no peers and no intra-proxy manager: nobody can legitimately open
+	// an intra-proxy stream to it, whatever the marker header says.
+	if shardManager.GetIntraProxyManager() == nil {
+		logger.Warn("Rejecting intra-proxy stream: intra-proxy routing is not enabled on this proxy")
+		return serviceerror.NewFailedPrecondition("intra-proxy routing is not enabled on this proxy")
+	}
+
 	// Only allow intra-proxy when at least one shard is local to this proxy instance
 	isLocalSource := shardManager.IsLocalShard(sourceShardID)
 	isLocalTarget := shardManager.IsLocalShard(targetShardID)
